@@ -208,6 +208,46 @@ def check_key_set_histories(ctx):
         si = R.b64u(json.dumps(hdr).encode()) + b"." + R.b64u(b'{"a":1}')
         return si + b"." + R.b64u(hmac.new(secrets[name], si, hashlib.sha256).digest())
     kid_pool = ["k1", "k2", "k3", None]
+    # scripted histories first (the walks below depend on the seed): a key is looked up or used, then retired or replaced under its
+    # kid, in place or by assigning a new list, then named again
+    for prime in ("find", "decode", "both", "none"):
+        for change in ("replace-in-place", "remove", "del", "assign-new-list", "replace-then-assign"):
+            ks = KeySet([mk("A", "k1"), mk("B", "k2")])
+            if prime in ("find", "both"):
+                ks.find_by_kid("k1")
+            if prime in ("decode", "both"):
+                jwt.decode(token("A", "k1"), ks)
+            if change == "replace-in-place":
+                ks.keys[0] = mk("C", "k1")
+            elif change == "remove":
+                ks.keys.remove(ks.keys[0])
+            elif change == "del":
+                del ks.keys[0]
+            elif change == "assign-new-list":
+                ks.keys = [mk("C", "k1"), ks.keys[1]]
+            else:
+                ks.keys[0] = mk("C", "k1")
+                ks.keys = list(ks.keys)
+            kids = [k.kid for k in ks.keys]
+            expect = m.call("kp_find_by_kid", {"kids": kids, "kid": "k1"})
+            try:
+                real = ks.keys.index(ks.find_by_kid("k1"))
+            except ValueError:
+                real = None
+            case = {"history": ["scripted", prime, change], "kids": kids, "kid": "k1", "op": "find"}
+            ctx.case(case, ("ks-scripted", prime, change), "kid-history:scripted")
+            ctx.compare("find_by_kid:history", case, real, expect)
+            for signer in ("A", "C", "B"):
+                try:
+                    jwt.decode(token(signer, "k1"), ks)
+                    acc = True
+                except Exception:  # noqa: BLE001
+                    acc = False
+                want = expect is not None and ks.keys[expect]._name == signer
+                ctx.compare("kid_end_to_end:history", dict(case, signer=signer, op="decode"), acc, want)
+                if acc and not any(k._name == signer and k.kid == "k1" for k in ks.keys):
+                    ctx.violation("C02:kid:key-no-longer-in-the-set", "a token verified under a key that the key set no longer holds (or never designated)",
+                                  dict(case, signer=signer))
     for h in range(12 if ctx.tier == "quick" else 120):
         ks = KeySet([mk("A", "k1"), mk("B", "k2")])
         log = []
